@@ -452,6 +452,22 @@ def pd_Timedelta(I, a, unit=None, **kw):
     return TD(k * freq_ns(I, unit))
 
 
+def pd_to_offset(I, f):
+    """pandas.tseries.frequencies.to_offset(frequency string): the frequency itself (only its length is ever used)"""
+    if isinstance(f, (str,)) or (is_z3(f) and f.sort() == sym.Str) or (isinstance(f, Obj) and f.cls == 'Freq'):
+        return Obj('Offset', freq=f)
+    raise Unsupported('to_offset of ' + type(f).__name__)
+
+
+def pd_to_timedelta(I, v, **kw):
+    """pd.to_timedelta(offset): the fixed duration of a tick frequency (A4: the harness gives tick frequencies)"""
+    if isinstance(v, Obj) and v.cls == 'Offset':
+        return TD(freq_ns(I, v.get('freq')))
+    if isinstance(v, TD):
+        return v
+    raise Unsupported('to_timedelta of ' + type(v).__name__)
+
+
 def pd_Timestamp(I, v, tz=None, **kw):
     if isinstance(v, TS):
         if tz is None:
@@ -594,7 +610,7 @@ def pd_merge(I, *a, **kw):
 
 PD = ModelNS('pandas', dict(
     Timedelta=pd_Timedelta, Timestamp=TypeTok('Timestamp'), DataFrame=TypeTok('DataFrame', attrs=dict(from_dict=pd_DataFrame_from_dict)), concat=pd_concat,
-    date_range=pd_date_range, to_datetime=pd_to_datetime, merge=pd_merge, Series=TypeTok('Series'),
+    date_range=pd_date_range, to_datetime=pd_to_datetime, to_timedelta=pd_to_timedelta, merge=pd_merge, Series=TypeTok('Series'),
     DatetimeIndex=TypeTok('DatetimeIndex'),
 ))
 
@@ -1011,7 +1027,7 @@ ast_Import, ast_ImportFrom = _ast.Import, _ast.ImportFrom
 MODULES = {'numpy': NP, 'pandas': PD, 'scipy.sparse': SP, 'datetime': DT, 'abc': ModelNS('abc', {}),
            'copy': ModelNS('copy', dict(deepcopy=deepcopy_, copy=deepcopy_)), 'json': ModelNS('json', {}),
            'pytz': ModelNS('pytz', {})}
-FROM_IMPORTS = {'copy.deepcopy': deepcopy_}
+FROM_IMPORTS = {'copy.deepcopy': deepcopy_, 'pandas.tseries.frequencies.to_offset': pd_to_offset}
 
 
 # ----------------------------------------------------------------------------- attributes / methods of values
